@@ -496,12 +496,17 @@ func localCopyOf(v ssa.Value, isLoad func(ssa.Value) bool) bool {
 	return isLoad(v)
 }
 
-const textC20Accounted = "R-C20-accounted: every goroutine the emulator's WaitGroup accounts for (a `go` statement preceded by Add) (self-wait) never reaches a Wait on that WaitGroup itself — it would wait for its own Done; (done-last) signals Done only after everything else it does on termination: `defer wg.Done()` is the first defer of the goroutine function (it runs last), so WaitForTermination does not return while the goroutine still works (the final save)"
+const textC20Accounted = "R-C20-accounted: every goroutine the emulator's WaitGroup accounts for (a `go` statement preceded by Add) (self-wait) never reaches a Wait on that WaitGroup itself — it would wait for its own Done; (bounded) never waits for a blocking command's wake-up unless requesting termination ends blocked commands — otherwise one client in BLPOP k 0 keeps WaitForTermination from returning; (done-last) signals Done only after everything else it does on termination: `defer wg.Done()` is the first defer of the goroutine function (it runs last), so WaitForTermination does not return while the goroutine still works (the final save)"
 
 func ruleC20Accounted(c *Ctx) {
 	c.S.Rule("R-C20-accounted", textC20Accounted, 3)
 	isWG := func(call ssa.CallInstruction, method string) bool {
 		return fullCalleeName(call) == "(*sync.WaitGroup)."+method
+	}
+	ba := c.blocking()
+	termEndsBlocks := false
+	if ub, rt := unblockPoster(c), c.Fn("(*RedisEmu).RequestTermination"); ub != nil && rt != nil {
+		termEndsBlocks = c.M.Reach(rt)[ub]
 	}
 	n := 0
 	for _, fn := range c.SrcFuncs() {
@@ -541,6 +546,18 @@ func ruleC20Accounted(c *Ctx) {
 					c.S.Bad("R-C20-accounted", key, c.Pos(g.Pos()), fmt.Sprintf("the goroutine %s, which the WaitGroup counts, can reach WaitGroup.Wait (in %s): it waits for its own Done and termination never completes", fnName(target), selfWait))
 				} else {
 					c.S.OK("R-C20-accounted", key, c.Pos(g.Pos()), "the goroutine never waits on the WaitGroup that counts it")
+				}
+				// (bounded) what termination waits for ends when termination is requested
+				if ba.selectFn != nil {
+					key = fmt.Sprintf("%s:bounded", fnName(target))
+					switch {
+					case !c.M.Reach(target)[ba.selectFn]:
+						c.S.OK("R-C20-accounted", key, c.Pos(g.Pos()), "the goroutine never waits for a blocking command's wake-up")
+					case termEndsBlocks:
+						c.S.OK("R-C20-accounted", key, c.Pos(g.Pos()), "requesting termination ends the blocked commands the goroutine may wait in")
+					default:
+						c.S.Bad("R-C20-accounted", key, c.Pos(g.Pos()), fmt.Sprintf("the goroutine %s, which the WaitGroup counts, can wait in %s for a blocking command's wake-up, and RequestTermination ends no blocked command: with one client in BLPOP k 0, WaitForTermination / Close never returns", fnName(target), fnName(ba.selectFn)))
+					}
 				}
 				// (done-last)
 				key = fmt.Sprintf("%s:done-last", fnName(target))
